@@ -15,7 +15,8 @@ LEVEL = "model_checking"
 RULE = ("every program = tree of with-blocks with bodies of bounded length per nesting level over events "
         "{display str / list / tag / None / Ellipsis / _repr_html_ object / invalid set / invalid dict, "
         "raise, re-enter the innermost active tag, re-enter the outermost active tag, nested fresh "
-        "block, nested fresh block inside try/except}; plus top-level sequences with sequential re-use. "
+        "block, nested fresh block inside try/except}; plus top-level sequences with sequential re-use; plus every "
+        "kind of displayed value incl. the falsy and empty ones (0, 0.0, '', [], (), TagList(), HTML(''), {}, set(), b''). "
         "Every raise / invalid value / re-entry position is a fault point, so all single faults and, "
         "through try/except blocks, multiple faults are covered. Non-trivial = program with >= 2 events "
         "of which >= 1 changes a tag or faults. Distinct by construction.")
@@ -87,13 +88,33 @@ class Run:
         return t
 
 
+VALUE_KINDS = ["str", "list", "tag", "none", "ellipsis", "repr", "set", "dict", "xr", "dep", "zero", "fzero", "num",
+               "float", "estr", "elist", "etuple", "etaglist", "ehtml", "html", "edict", "eset", "efrozenset",
+               "ebytes", "nested-empty"]
+_SCALAR_TEXT = {"zero": "0", "fzero": "0.0", "num": "7", "float": "1.5", "estr": ""}
+
+
+def _empty_taglist():
+    from htmltools import TagList
+    return TagList()
+
+
+def _html(x):
+    from htmltools import HTML
+    return HTML(x)
+
+
 def make_value(kind):
     from htmltools import HTMLDependency, Tag
     from ..spec import Repr, TagifRepr
     return {"str": "s<", "list": ["l", 1, None, ("m",)], "tag": Tag("span", "x"), "none": None,
             "ellipsis": ..., "repr": Repr("<u>r</u>"), "set": {1}, "dict": {"a": 1},
             "xr": TagifRepr(["E", "b", False, [], [["T", "exp"]]], "<REPR/>"),
-            "dep": HTMLDependency("shown", "1.0", script={"src": "s.js"})}[kind]
+            "dep": HTMLDependency("shown", "1.0", script={"src": "s.js"}),
+            # falsy / empty values: "nothing to show" is None and Ellipsis only; everything else goes through the child rules
+            "zero": 0, "fzero": 0.0, "num": 7, "float": 1.5, "estr": "", "elist": [], "etuple": (),
+            "etaglist": _empty_taglist(), "ehtml": _html(""), "html": _html("<i>&"), "edict": {}, "eset": set(),
+            "efrozenset": frozenset(), "ebytes": b"", "nested-empty": [[], (None,), [()]]}[kind]
 
 
 def model_children_for(value, kind):
@@ -108,6 +129,14 @@ def model_children_for(value, kind):
         return [("obj", id(value))]      # tags, tagifiable objects and metadata nodes are kept as they are
     if kind == "repr":
         return [("HTML", "<u>r</u>")]
+    if kind in _SCALAR_TEXT:
+        return [("str", _SCALAR_TEXT[kind])]      # numbers as their str() text, strings kept whole (also the empty one)
+    if kind in ("elist", "etuple", "etaglist", "nested-empty"):
+        return []                                  # empty lists splice to nothing
+    if kind == "ehtml":
+        return [("HTML", "")]
+    if kind == "html":
+        return [("HTML", "<i>&")]
     return None   # invalid -> TypeError
 
 
@@ -480,6 +509,12 @@ def plan(tier):
                     space=Map(hj, lambda body: [["block", [["disp", "str"], ["block", body], ["disp", "str"]]]]),
                     note="inside a block (itself nested in an outer block) foreign code assigns sys.displayhook and never restores it: "
                          "every block exit still restores the hook installed at its entry, the outer blocks keep collecting"))
+    vk = bodies([["disp", k] for k in VALUE_KINDS] + [["raise"]], [2, 1] if tier == "quick" else [3, 1])
+    out.append(dict(kind="space", name="every-kind-of-displayed-value", fn=fn,
+                    space=Map(vk, lambda body: [["block", body]]),
+                    note=f"one outer block (nested blocks inside) over {len(VALUE_KINDS)} kinds of displayed value, among them the "
+                         "falsy and empty ones (0, 0.0, '', [], (), TagList(), HTML(''), {}, set(), frozenset(), b''): only None "
+                         "and Ellipsis are ignored, numbers and the empty string are appended, empty invalid containers raise TypeError"))
     srcs = ["copy", "deepcopy", "pickle", "tagify", "child-of-deepcopy", "used-before", "structurally-equal"]
     sb = bodies(ATOMS_RED[:5], [2, 2])
     out.append(dict(kind="space", name="tags-obtained-by-copying", fn=fn_source,
